@@ -288,10 +288,15 @@ def aff_arith(interp, name, a, b):
     if x is None or y is None or not (isinstance(a, Aff) or isinstance(b, Aff)):
         return None
     kinds = (x.kind, y.kind)
+    both_int = (isinstance(a, Aff) and a.kind == 'int' or isinstance(a, Const) and isinstance(a.value, int)) and \
+               (isinstance(b, Aff) and b.kind == 'int' or isinstance(b, Const) and isinstance(b.value, int))
+    kinds = tuple('num' if kk == 'int' else kk for kk in kinds)
+    x = Aff(x.coeff, x.const, kinds[0])
+    y = Aff(y.coeff, y.const, kinds[1])
     if name in ('add', 'sub'):
         sign = 1 if name == 'add' else -1
         if kinds == ('num', 'num'):
-            kind = 'num'
+            kind = 'int' if both_int else 'num'
         elif kinds == ('dt', 'td') or (kinds == ('td', 'dt') and name == 'add'):
             kind = 'dt'
         elif kinds == ('dt', 'dt') and name == 'sub':
@@ -303,7 +308,7 @@ def aff_arith(interp, name, a, b):
         return Aff(x.coeff + sign * y.coeff, x.const + sign * y.const, kind)
     if name == 'mul':
         if kinds == ('num', 'num') or 'td' in kinds and 'num' in kinds:
-            kind = 'td' if 'td' in kinds else 'num'
+            kind = 'td' if 'td' in kinds else ('int' if both_int else 'num')
             if x.is_const():
                 return Aff(y.coeff * x.const, y.const * x.const, kind)
             if y.is_const():
@@ -323,7 +328,7 @@ def aff_compare(interp, name, a, b, text):
     x, y = _aff_of(a), _aff_of(b)
     if x is None or y is None or not (isinstance(a, Aff) or isinstance(b, Aff)):
         return None
-    if x.kind != y.kind and not (x.kind in ('num',) and y.kind in ('num',)):
+    if x.kind != y.kind and not (x.kind in ('num', 'int') and y.kind in ('num', 'int')):
         if name in ('eq', 'ne'):
             return Const(name == 'ne')
         raise Raised(Exc('TypeError', 'cannot order %s and %s' % (x.kind, y.kind)))
@@ -609,6 +614,11 @@ def call_type(interp, name, args, kwargs):
         return to_str(interp, args[0]) if args else Const('')
     if name == 'bool':
         return Const(interp.truth(args[0], 'bool(%r)' % (args[0],))) if args else Const(False)
+    if name in ('int', 'float') and args and isinstance(args[0], Aff) and args[0].kind in ('int', 'num'):
+        a = args[0]
+        if name == 'int' and a.kind != 'int':
+            raise Unmodelled('int() of a non-integral affine form')
+        return Aff(a.coeff, a.const, 'int' if name == 'int' else 'num')
     if name in ('int', 'float', 'complex'):
         if not args:
             return Const({'int': 0, 'float': 0.0, 'complex': 0j}[name])
@@ -750,6 +760,11 @@ def call_builtin(interp, name, args, kwargs):
                 continue
             acc = arith(interp, 'add', acc, it)
         return acc
+    if name in ('min', 'max') and len(args) == 2 and (isinstance(args[0], Aff) or isinstance(args[1], Aff)) and \
+            _aff_of(args[0]) is not None and _aff_of(args[1]) is not None:
+        r = aff_compare(interp, 'ge', args[0], args[1], '%s(%r, %r)' % (name, args[0], args[1]))
+        first_is_max = interp.truth(r)
+        return args[0] if (first_is_max == (name == 'max')) else args[1]
     if name in ('min', 'max'):
         if len(args) == 1:
             items = _drain(interp, args[0])
